@@ -142,6 +142,24 @@ func (c *Ctx) RCONFrame() []core.Ob {
 					add := func(width int64, v ssa.Value) {
 						seq = append(seq, el{idx: int64(len(seq)), width: width, val: v})
 					}
+					// put(field) where put is a local closure that hands its parameter to binary.Write
+					if g := cc.StaticCallee(); g != nil && g.Parent() != nil {
+						for _, gb := range g.Blocks {
+							for _, gin := range gb.Instrs {
+								gc, ok := gin.(ssa.CallInstruction)
+								if !ok || calleeName(gc.Common()) != "encoding/binary.Write" || len(gc.Common().Args) != 3 {
+									continue
+								}
+								for k, p := range g.Params {
+									if gc.Common().Args[2] == ssa.Value(p) && k < len(cc.Args) {
+										if mi, ok := cc.Args[k].(*ssa.MakeInterface); ok {
+											add(widthOf(mi.X), mi.X)
+										}
+									}
+								}
+							}
+						}
+					}
 					switch {
 					case cn == "encoding/binary.Write" && len(cc.Args) == 3:
 						if mi, ok := cc.Args[2].(*ssa.MakeInterface); ok {
@@ -256,6 +274,19 @@ func (c *Ctx) RCONFrame() []core.Ob {
 						// symbolic high: Length - t
 						if kk, hasVar, ok := sumConsts(x.High); ok && hasVar {
 							trailer = -kk
+							// rest := buf[8:]; rest[:len(rest)-2]: the payload starts where the slices it is cut from start
+							for base := x.X; ; {
+								inner, ok := base.(*ssa.Slice)
+								if !ok {
+									break
+								}
+								if inner.Low != nil {
+									if k, ok := constIntVal(inner.Low); ok {
+										lo += k
+									}
+								}
+								base = inner.X
+							}
 							lows = append(lows, lo)
 						}
 					}
